@@ -166,7 +166,7 @@ def skipRest (l : List UInt8) : Bool :=
   | [] => false
   | c :: r =>
     if c == 34 then true
-    else if c == 0 then false
+    else if c.toNat < 32 then false
     else if c == 92 then
       match r with
       | [] => false
@@ -190,7 +190,7 @@ def keyChars (l : List UInt8) : Option (List UInt8) :=
   | [] => none
   | c :: r =>
     if c == 34 then some []
-    else if c == 0 then none
+    else if c.toNat < 32 then none
     else if c == 92 then
       match esc r with
       | some (chars, n) => (keyChars (r.drop n)).map (chars ++ ·)
@@ -222,7 +222,7 @@ def rawScan (names : List (List UInt8)) (w : Nat) (cur idx : Nat) (l : List UInt
   | [] => .err
   | c :: r =>
     if c == 34 then ofKR (finish names w cur idx)
-    else if c == 0 then .err
+    else if c.toNat < 32 then .err
     else if c == 92 then
       match esc r with
       | none => .err
